@@ -355,6 +355,27 @@ pub fn run_v1(seed: u64, mut ov: impl FnMut(&mut engine::Cfg)) -> ! {
         Ok(q) => drop(q),
         Err(_) => violation("harness: queue still shared"),
     }
+    // a list may go away while handles of consumed entries are still around (the timer thread
+    // drops drained lists once more than 1024 durations exist; the handle of the timer that fired
+    // last is removed a little later): the last consumed entry is the list's end marker, it must
+    // stay valid until its handle is gone
+    {
+        let q2: Queue<Tok> = Queue::new();
+        let (ha, _) = q2.push(Tok::new(1900));
+        let (hb, _) = q2.push(Tok::new(1901));
+        let a = q2.pop();
+        let b = q2.pop();
+        if a.map(|t| t.id()) != Some(1900) || b.map(|t| t.id()) != Some(1901) {
+            violation("single-threaded push push pop pop did not return the two values in order");
+        }
+        drop(q2);
+        if hb.remove().is_some() {
+            violation("remove() of an entry consumed before its list was dropped returned a value");
+        }
+        if ha.remove().is_some() {
+            violation("remove() of an entry consumed before its list was dropped returned a value");
+        }
+    }
     engine::finish_ok()
 }
 
